@@ -58,7 +58,7 @@ sensitivity)
 				esac
 				[ -f "$rp" ] && cp "$rp" "$KEEP_REPLAYS/$prop-$nm.json"
 			fi
-			echo "caught  $prop $(basename "$(dirname "$f")")/$(basename "$f"): $(echo "$out" | grep -E '^  (oracle|op) ' | tr -s ' ' | tr '\n' ';')"
+			echo "caught  $prop $(basename "$(dirname "$f")")/$(basename "$f"): $(echo "$out" | sed 's/^\[unchecked\] //' | grep -E '^  (oracle|op) ' | tr -s ' ' | tr '\n' ';')"
 		else
 			echo "MISSED  $prop $f (exit $rc)"
 			missed=1
